@@ -679,13 +679,31 @@ impl FunctionCompiler<'_> {
             let old_switch_locals = std::mem::take(&mut self.switch_locals);
             let old_exits = std::mem::take(&mut self.exits);
             let old_continues = std::mem::take(&mut self.continues);
-            let res = self.compile_expr_with_args(body, no_load);
-            // the body may have a narrower type than the annotation of the global
-            let res = if no_load {
-                res
+            let sig_ty = self.tys.sig(loc.wrap());
+            let res = if no_load && !sig_ty.is_aggregate() {
+                // The address of the global is wanted (`p := ^K;`) and its value is a scalar:
+                // the value is computed here, so it has to be put into memory first. Handing
+                // out the value itself as if it was the address made `p^` read from address 3.
+                let val = self.compile_expr_with_args(body, false);
+                let val = self.cast(val, self.tys[self.loc][body], sig_ty);
+
+                let stack_slot = self.builder.create_sized_stack_slot(StackSlotData {
+                    kind: StackSlotKind::ExplicitSlot,
+                    size: sig_ty.size(),
+                    align_shift: sig_ty.align_shift(),
+                });
+                let memory = MemoryLoc::from_stack(stack_slot, 0);
+                memory.write_all(val, sig_ty, self.module, &mut self.builder);
+
+                Some(memory.into_value(&mut self.builder, self.ptr_ty))
             } else {
-                let sig_ty = self.tys.sig(loc.wrap());
-                self.cast(res, self.tys[self.loc][body], sig_ty)
+                let res = self.compile_expr_with_args(body, no_load);
+                // the body may have a narrower type than the annotation of the global
+                if no_load {
+                    res
+                } else {
+                    self.cast(res, self.tys[self.loc][body], sig_ty)
+                }
             };
             self.continues = old_continues;
             self.exits = old_exits;
